@@ -16,13 +16,62 @@ class Assignment:
         self.values = {}
         self.order = []
         self.pending = []                # alternatives discovered on this run
+        self.fix_props = False           # data propositions take their first value only (no enumeration)
+        self.preset = {}                 # flag name -> fixed value (not enumerated)
+        self.props = {}                  # atomic propositions over data (relational -> bool)
+        self.values_props = {}
+        self.trail = []                  # every decision of this run in order, flags and propositions alike
 
     def oracle(self, node, c, interp):
         c = sp.sympify(c)
         if not isinstance(c, sp.Basic) or not c.free_symbols:
             return None
         if not all(isinstance(x, sp.Symbol) and x.name in interp.bool_inputs for x in c.free_symbols):
-            return None      # mixes flags with data or sizes: not a pure configuration test
+            # not a pure configuration test.  When the caller allows it, a comparison over scalar data (a weight being
+            # positive, a pointer being null) is enumerated as one atomic proposition, consistently with its negation.
+            if not getattr(interp, "opaque_conditions", False):
+                return None
+            if not isinstance(c, sp.core.relational.Relational):
+                # a boolean combination: decide its comparisons (and flags) one by one
+                atoms = sorted(c.atoms(sp.core.relational.Relational), key=str)
+                if not atoms:
+                    return None
+                rep = {}
+                for a_ in atoms:
+                    d_ = self.oracle(node, a_, interp)
+                    if d_ is None:
+                        return None
+                    rep[a_] = sp.true if d_ else sp.false
+                r_ = c.xreplace(rep)
+                for x_ in list(r_.free_symbols):
+                    if isinstance(x_, sp.Symbol) and x_.name in interp.bool_inputs:
+                        d_ = self.oracle(node, x_, interp)
+                        if d_ is None:
+                            return None
+                        r_ = r_.xreplace({x_: sp.true if d_ else sp.false})
+                r_ = sp.simplify(r_)
+                return True if r_ == sp.true else False if r_ == sp.false else None
+            key = c.canonical
+            neg = sp.Not(c).canonical if hasattr(sp.Not(c), "canonical") else None
+            if key in self.props:
+                return self.props[key]
+            if neg is not None and neg in self.props:
+                return not self.props[neg]
+            k = len(self.order)
+            if self.fix_props:
+                self.props[key] = True
+                self.values_props[key] = True
+                return True
+            if k < len(self.script):
+                v = self.script[k][1]
+            else:
+                v = True
+                self.pending.append(list(self.trail) + [(key, False)])
+            self.props[key] = v
+            self.order.append(key)
+            self.trail.append((key, v))
+            self.values_props[key] = v
+            return v
         while True:
             r = c.xreplace({k: (sp.true if v else sp.false) for k, v in self.values.items()})
             try:
@@ -34,6 +83,10 @@ class Assignment:
             if r == sp.false:
                 return False
             free = [x for x in r.free_symbols if isinstance(x, sp.Symbol) and x not in self.values]
+            pre = [x for x in free if x.name in self.preset]
+            if pre:
+                self.values[pre[0]] = self.preset[pre[0].name]
+                continue
             if not free:
                 return None
             x = sorted(free, key=lambda z: z.name)[0]
@@ -42,12 +95,13 @@ class Assignment:
                 v = self.script[k][1]
             else:
                 v = True
-                self.pending.append([(y, self.values[y]) for y in self.order] + [(x, False)])
+                self.pending.append(list(self.trail) + [(x, False)])
             self.values[x] = v
             self.order.append(x)
+            self.trail.append((x, v))
 
 
-def explore(run):
+def explore(run, preset=None, fix_props=False):
     """run(oracle) -> result, for every consistent assignment of the boolean inputs the code consults.
     Returns [(assignment dict {symbol: bool}, result)]."""
     out = []
@@ -56,8 +110,13 @@ def explore(run):
     while stack:
         script = stack.pop()
         A = Assignment(script)
+        if preset:
+            A.preset = dict(preset)
+        A.fix_props = fix_props
         res = run(A.oracle)
-        out.append((dict(A.values), res))
+        d = dict(A.values)
+        d.update(A.values_props)
+        out.append((d, res))
         stack.extend(A.pending)
         guard += 1
         if guard > 4096:
